@@ -263,6 +263,7 @@ type ProbeResult struct {
 	Authed   bool
 	Reply    []byte
 	Served   bool // the target's answer came back intact
+	Forwarded bool // UDP: the datagram reached the target
 }
 
 // ProbeTCP opens a connection to l with key k, relays one request through the echo target.
@@ -318,7 +319,15 @@ func (w *World) ProbeUDP(l Listener, k Key, seed uint64) ProbeResult {
 	var res ProbeResult
 	for _, d := range w.UDPTgt.Drain() {
 		if string(d.Data) == string(msg) {
-			res.Served = true
+			// the target answers; the answer must come back to the client under the same key
+			w.UDPTgt.SendRaw([]byte("answer:"+string(msg)), d.From)
+			vrt.WaitIdle()
+			for _, r := range sock.Drain() {
+				if plain, err := world.UnpackUDP(key, r.Data); err == nil && strings.HasSuffix(string(plain), "answer:"+string(msg)) {
+					res.Served = true
+				}
+			}
+			res.Forwarded = true
 		}
 	}
 	for _, ev := range w.M.UDP.Events[nev:] {
